@@ -293,6 +293,11 @@ impl Memfs {
         // ourselves out.
         let mut entries = self.entries(&opts.path)?.contents_first();
 
+        // The symbolic form is checked up front whenever it may be consulted so that an error changes nothing
+        if opts.dirs == 0 || opts.files == 0 {
+            sys::check_sym(&opts.sym)?;
+        }
+
         // Set the `max_depth` based on recursion
         entries = entries.max_depth(match opts.recursive {
             true => usize::MAX,
